@@ -56,6 +56,15 @@ Theorem C05_gen_quote : forall isprint gl buf s,
 Proof. exact GenEscP.gen_quote_with. Qed.
 Print Assumptions C05_gen_quote.
 
+(* a string value: PrintCtx.appendQuotedString as it is in /repo now - the JSON escaper between two
+   quotes in JSON mode, appendQuotedWith otherwise; a helper it calls (a fast path) would be translated
+   with it *)
+Theorem C05_gen_quoted_string : forall isprint gl jsonMode buf str,
+  Escapes.quoted_string isprint gl Tables.t_hex Tables.t_safeSet jsonMode buf str =
+  Some (buf ++ if jsonMode then JsonEsc.json_quote str else quote_go isprint str).
+Proof. exact GenEscP.gen_quoted_string. Qed.
+Print Assumptions C05_gen_quoted_string.
+
 Definition ascii_consistent (isprint : Z -> bool) : Prop :=
   forall r, 0 <= r < 128 -> isprint r = (32 <=? r) && (r <? 127).
 
